@@ -1,6 +1,7 @@
 import Driver.Util
 import OptunaVerif.Model.Repro
 import OptunaVerif.Model.GACache
+import OptunaVerif.Generated.GaMethods
 /-! Sub-driver `repro` (C09): runs the Lean optimisation-loop model on an objective program with a
 *replay* sampler/pruner (the values the real sampler produced and the answers the real pruner gave,
 as observed on the implementation), on the storage contract model with a requested id offset and on
@@ -193,11 +194,68 @@ def gaOp (j : Json) : P Json := do
     ("write", Json.arr (w.map (fun (n : Nat) => (n : Json))).toArray),
     ("read", optJson (fun l => Json.arr (l.map (fun (t : GACache.T) => (t.number : Json))).toArray) rd)]
 
+/-- `gamethods`: the generated `get_trial_generation` / `get_population` / `get_parent_population` (interpreter of
+`Generated/GaMethods.lean`) beside the hand model on one concrete study:
+request  {"op":"gamethods","trials":[[id,number,gen|null,state]..],"cur":index,"pop":n,"g":g,"parents":[number..]}
+answer   {"generation":g,"writes":[[id,g]..],"population":[number..],"first":[number..],"stored":[int..],
+          "second":[number..]|null (IndexError),"gen":null|{..first difference between interpreter and hand model..}} -/
+def gaMethodsOp (j : Json) : P Json := do
+  let trials ← mapM' (fun t => do
+    match (← t.getArr?).toList with
+    | [i, n, g, st] =>
+      let gen ← if g.isNull then pure none else do pure (some (← g.getNat?))
+      return (⟨← i.getNat?, ← n.getNat?, gen, ← parseState st⟩ : GACache.GT)
+    | _ => throw "trial = [id, number, gen|null, state] expected") (← arrF j "trials")
+  let curIdx ← natF j "cur"
+  let pop ← natF j "pop"
+  let g ← natF j "g"
+  let parents ← mapM' (fun d => d.getNat?) (← arrF j "parents")
+  let cur := trials.getD curIdx default
+  let ps := parents.filterMap (fun n => trials[n]?)
+  let nums := fun (l : List GACache.GT) => Json.arr (l.map (fun t => (t.number : Json))).toArray
+  let natsJ := fun (l : List Nat) => Json.arr (l.map (fun (n : Nat) => (n : Json))).toArray
+  -- hand model
+  let hg := GACache.trialGeneration pop trials cur
+  let hpop := GACache.population trials g
+  let h1 := GACache.parentPopulation (fun _ s => (ps, s)) trials [] g
+  let h2 := GACache.parentPopulation (fun _ s => (ps, s)) trials h1.2 g
+  -- interpreter of the generated methods
+  let P := OptunaVerif.Generated.GaMethods.gaProg
+  let ig := OptunaVerif.GaIR.interpTrialGeneration P.getTrialGeneration (some pop) trials cur
+  let ipop := OptunaVerif.GaIR.interpPopulation P.getPopulation trials g
+  let i1 := OptunaVerif.GaIR.interpParentPopulation P.getParentPopulation (fun _ s => .ok (ps, s)) trials [] g
+  let i2 := match i1 with
+    | .ok (_, st1) => OptunaVerif.GaIR.interpParentPopulation P.getParentPopulation (fun _ s => .ok (ps, s)) trials st1 g
+    | .error e => .error e
+  let okG := match ig with
+    | .ok (gv, ws) => gv == hg.1 && ws == hg.2.toList
+    | .error _ => false
+  let okP := match ipop with
+    | .ok l => l == hpop
+    | .error _ => false
+  let ok1 := match i1 with
+    | .ok (l, st) => some l == h1.1 && st == h1.2
+    | .error _ => h1.1.isNone
+  let ok2 := match i2 with
+    | .ok (l, st) => some l == h2.1 && st == h2.2
+    | .error _ => h2.1.isNone
+  let gen : Json := if okG && okP && ok1 && ok2 then Json.null
+    else Json.mkObj [("generation_agrees", okG), ("population_agrees", okP), ("first_call_agrees", ok1), ("second_call_agrees", ok2)]
+  return Json.mkObj [
+    ("generation", (hg.1 : Json)),
+    ("writes", Json.arr (hg.2.toList.map (fun w => Json.arr #[(w.1 : Json), (w.2 : Json)])).toArray),
+    ("population", nums hpop),
+    ("first", optJson nums h1.1),
+    ("stored", natsJ ((GACache.Store.get? h1.2 g).getD [])),
+    ("second", optJson nums h2.1),
+    ("gen", gen)]
+
 def handle (j : Json) : Json :=
   let r : P Json := do
     match ← strF j "op" with
     | "run" => runOp j
     | "gacache" => gaOp j
+    | "gamethods" => gaMethodsOp j
     | o => throw s!"unknown op {o}"
   match r with
   | .ok v => v
